@@ -212,6 +212,15 @@ def main_check(pid, tier, seed, jobs=None, replay=None, limit=None):
     cases = mod.generate(tier, seed)
     if limit:
         cases = cases[:limit]
+    # pinned witnesses of repaired / recorded defects are re-run on every invocation
+    regdir = os.path.join(env.VERIF_ROOT, "regression", pid)
+    if os.path.isdir(regdir):
+        for fn in sorted(os.listdir(regdir)):
+            if fn.endswith(".json"):
+                with open(os.path.join(regdir, fn)) as fh:
+                    c = json.load(fh)["case"]
+                c["regression"] = fn
+                cases.append(c)
     results, lost = run_cases(mod, cases, jobs, timeout, chunk)
 
     fin = None
@@ -233,7 +242,9 @@ def main_check(pid, tier, seed, jobs=None, replay=None, limit=None):
         else:
             for c in cl:
                 classes[c] += 1
-            if r["nontrivial"]:
+            if r.get("keys") is not None:
+                keys.update(r["keys"])      # several judged observations in one case
+            elif r["nontrivial"]:
                 keys.add(r["key"])
         for v in r["viol"]:
             viols.append((r, v))
